@@ -39,5 +39,7 @@ CONFIG = dict(
         dict(test="TestC14Perms", quick=150, thorough=3200, shards=16),
         dict(test="TestC14Random", quick=20000, thorough=1600000, shards=16),
         dict(test="TestC14Concurrent", quick=1500, thorough=96000, shards=16),
+        # harness-owned schedule: Clear() from another goroutine while the cascade of a push is held inside Check
+        dict(test="TestC14ClearDuringCascade", quick=300, thorough=16000, shards=16),
     ],
 )
